@@ -232,7 +232,7 @@ def refFieldValue (env : Env) : Nat → Ty → Val → Res Int
         if f0.name == "Present" then
           match fs with
           | .int p :: _ =>
-            if p = 0 then err
+            if p ≤ 0 then err        -- 0: "present is 0"; negative values do not occur (Go would trap)
             else if p.toNat ≥ sd.fields.length then err
             else
               match sd.fields[p.toNat]?, fs[p.toNat]? with
@@ -279,6 +279,22 @@ def optBitmap : List Field → List Val → Res Bits
     else optBitmap fs vs
   | _ :: _, [] => err
 
+/-- the parameters a SEQUENCE component is coded with: for an open type the reference value is taken from
+    the earlier field named `refField` (`getReferenceFieldValue(val.Field(index))`) -/
+def resolveRef (rfv : Ty → Val → Res Int) (allFields : List Field) (allVals : List Val) (i : Nat) (fd : Field) :
+    Res Params :=
+  if fd.params.openType then
+    match refIndex allFields fd.params.refField i with
+    | none => err
+    | some k =>
+      match allFields[k]?, allVals[k]? with
+      | some rf, some rv =>
+        match rfv rf.ty rv with
+        | .error e => .error e
+        | .ok x => .ok { fd.params with refValue := some x }
+      | _, _ => err
+  else .ok fd.params
+
 /-- the field loop of a SEQUENCE: absent optionals skipped; an open-type field gets its reference value
     from the earlier field named `refField` (`getReferenceFieldValue`) -/
 def encSeqFields (f : Nat → Ty → Params → Val → Res Bits) (rfv : Ty → Val → Res Int)
@@ -288,19 +304,7 @@ def encSeqFields (f : Nat → Ty → Params → Val → Res Bits) (rfv : Ty → 
   | i, pos, fd :: frest, v :: vrest =>
     if fd.params.optional ∧ isNil v then encSeqFields f rfv allFields allVals (i + 1) pos frest vrest
     else
-      let fp : Res Params :=
-        if fd.params.openType then
-          match refIndex allFields fd.params.refField i with
-          | none => err
-          | some k =>
-            match allFields[k]?, allVals[k]? with
-            | some rf, some rv =>
-              match rfv rf.ty rv with
-              | .error e => .error e
-              | .ok x => .ok { fd.params with refValue := some x }
-            | _, _ => err
-        else .ok fd.params
-      match fp with
+      match resolveRef rfv allFields allVals i fd with
       | .error e => .error e
       | .ok fp =>
         match f pos fd.ty fp v with
